@@ -319,6 +319,12 @@ def gen_mapping(rng, wf=True):
     if not wf and rng.random() < 0.5: e = U32 - rng.choice([1, r // 2 + 1])      # e + r overflows
     return (i, e, r)
 
+# per-mount mappings at the edge of the notion: an explicit override with an empty range ("translate nothing on this mount",
+# which must hide the global mapping), identity, range 1, the largest range, and triples whose internal+range or
+# external+range leaves u32 (translation may overflow: panic in a debug build)
+DEGENERATE_MAPS = [(0, 0, 0), (5, 7, 0), (1000, 1000, 500), (3, 9, 1), (0, 1, U32 - 1)]
+OVERFLOW_MAPS = [(U32 - 10, 5, 100), (5, U32 - 10, 100)]
+
 def check_model(name, cases, ev, broken, shard=40, max_report=3):
     """the tie: the Coq model replays each recorded history and must produce exactly the recorded observations.
     -> list of (case, first differing step) for disagreeing cases"""
